@@ -1186,6 +1186,16 @@ func runC18(c *Ctx) {
 	if !c.Hung {
 		c18BruteRace(c, time.Duration(c.Scale(3, 20))*time.Second)
 	}
+	// the competitors of the write lock that wait for a failing compaction at the level-0 pause trigger (C09's scenario D):
+	// OpenTransaction / a large batch must hand the lock back on that error path too, or Close never returns
+	for i := 0; i < c.Scale(6, 30) && !c.Hung && len(c.Res.Violations) == 0; i++ {
+		cfg := c09PauseCfg{Seed: c.R.Fork().U64(), Pause: 2 + i%3, Big: i%2 == 1}
+		if sig, msg := runC09Pause(c, cfg); sig != "" {
+			c.Res.Violate(sig, msg, cfg)
+			c.Hung = true
+		}
+		c.Res.Eval(fmt.Sprintf("pause/%+v", cfg), true)
+	}
 	// calls racing Close, one kind of call at a time, yield points widening the narrow windows (c18race.go)
 	runCloseRaces(c, time.Duration(c.Scale(14, 240))*time.Second, false)
 }
